@@ -204,7 +204,8 @@ int evaluate_module(void *data, const char *key, void *value) {
     int ret = 0;
     if (m_mod_is(mod, M_MOD_IDLE)) {
         ret = optional_hook(mod, MOD_EVAL);
-        if (ret == 0) {
+        /* on_eval() callback may have already started the module (or caused it to be started) */
+        if (ret == 0 && m_mod_is(mod, M_MOD_IDLE)) {
             start(mod, true);
         }
     }
